@@ -576,7 +576,7 @@ Section Num.
               match rest with
               | [] => Err EIndex
               | v :: rest' =>
-                  if float_lit (tsp v) then
+                  if num_lit (tsp v) then
                     let d := fold_left (fun d p => set_particle p (tval v) d) (particles s) (k_impd k) in
                     parse_kw f trs rest' (mkKws (max_vals d) (k_fill k) (k_lat k) (k_trcl k) (k_u k) d)
                   else Err EValue
